@@ -113,6 +113,8 @@ func VerifC06Grouping() {
 	if verifChoice("paren_atoms", 2) == 1 {
 		a, b, c = "(a)", "( b )", "((c))"
 	}
+	// "a is not b" spells the operator "is not" (covered by op1 = "is not" with no prefix), not "is" applied to "not b"
+	verifAssume(!(op1.text == "is" && u == 3))
 	src := a + sp + op1.text + sp + pre + b + sp + op2.text + sp + c
 	tree, err := ParseString(src, py.EvalMode)
 	verifReach("parsed")
